@@ -30,6 +30,7 @@ Transportation1dSorter::Transportation1dSorter(
   }
   std::sort(snkSort.begin(), snkSort.end());
 
+  nbSources = u.size();
   srcOrder.reserve(srcSort.size());
   for (auto p : srcSort) {
     srcOrder.push_back(p.second);
@@ -71,8 +72,8 @@ Transportation1dSorter::Solution Transportation1dSorter::convertSolutionBack(
 
 std::vector<int> Transportation1dSorter::convertAssignmentBack(
     const std::vector<int> &a) const {
-  std::vector<int> ret;
-  ret.resize(a.size());
+  // Sources without supply are not seen by the solver: give them a valid sink
+  std::vector<int> ret(nbSources, snkOrder.empty() ? 0 : snkOrder.front());
   for (size_t i = 0; i < a.size(); ++i) {
     ret[srcOrder[i]] = snkOrder[a[i]];
   }
